@@ -3,7 +3,7 @@
 (* Meaning of a LALRPOP grammar (core level) and evaluation of a parse.    *)
 (*                                                                         *)
 (* A case is                                                               *)
-(*   [id, G, sp, n, inject, P]                                             *)
+(*   [id, G, sp, n, inject, P, inl]                                        *)
 (* G, sp as in CanonLR (sp = the augmented production `__S = S`);          *)
 (* n = bound on the number of tokens; inject = whether the token stream    *)
 (* may deliver one user error instead of a token;                          *)
@@ -39,6 +39,14 @@
 (*  - actions run once per node, in post-order; an Err from an action or   *)
 (*    from the token stream ends the parse with exactly that error.        *)
 (*                                                                         *)
+(* inl = the nonterminals marked #[inline] (book: "inlining" -- and C14):  *)
+(* marking a nonterminal inline changes neither the language nor the       *)
+(* values; the actions of an inlined alternative (also fallible ones) run, *)
+(* in left-to-right order, just before the action of the alternative they  *)
+(* were inlined into.  This is modelled semantically: the parse runs on    *)
+(* the grammar as written, an inlined nonterminal's actions are deferred   *)
+(* (`pend`) to the reduction of its host.                                  *)
+(*                                                                         *)
 (* The parse itself is driven by the canonical LR(1) parser (oracle 1);    *)
 (* the case's grammar must be LR(1) (a conflict reached during evaluation  *)
 (* is reported and the case is discarded by the orchestrator).             *)
@@ -53,7 +61,7 @@ NoLa == [t |-> "none", k |-> 0]
 EofLa == [t |-> EOF, k |-> 0]
 
 VARIABLES c,       \* case index
-          stk,     \* sequence of [I, v, lo, hi]; stk[1] is the bottom (initial state, no symbol)
+          stk,     \* sequence of [I, v, lo, hi, pend]; stk[1] is the bottom (initial state, no symbol)
           la,      \* lookahead: NoLa | EofLa | [t |-> terminal, k |-> its position]
           pulled,  \* tokens pulled from the stream so far
           inp,     \* the tokens pulled, in order (the input being built)
@@ -74,7 +82,7 @@ ASSUME \A k \in 1..NC :
                                     reduced |-> Reduced(Cases[k].G, Lhs(Cases[k].G, Cases[k].sp))]))
 
 Init == /\ c \in {k \in 1..NC : LR1Of[k]}
-        /\ stk = << [I |-> InitSet(Cases[c].G, PreOf[c], Cases[c].sp), v |-> <<"bot">>, lo |-> 0, hi |-> 0] >>
+        /\ stk = << [I |-> InitSet(Cases[c].G, PreOf[c], Cases[c].sp), v |-> <<"bot">>, lo |-> 0, hi |-> 0, pend |-> <<>>] >>
         /\ la = NoLa
         /\ pulled = 0
         /\ inp = <<>>
@@ -114,9 +122,19 @@ Shift ==
   /\ res = Running /\ la # NoLa /\ Tok # EOF
   /\ NActions(GC, Top.I, Tok) = 1 /\ CanShift(GC, Top.I, Tok)
   /\ stk' = Append(stk, [I |-> Goto(GC, PreOf[c], Top.I, Tok), v |-> la.k,
-                         lo |-> TokLo(la.k), hi |-> TokHi(la.k)])
+                         lo |-> TokLo(la.k), hi |-> TokHi(la.k), pend |-> <<>>])
   /\ la' = NoLa
   /\ UNCHANGED <<c, pulled, inp, evs, res>>
+
+(* deferred actions: [tag, fails] in the order in which they will run *)
+RECURSIVE PendOf(_, _)
+PendOf(kids, i) == IF i > Len(kids) THEN <<>> ELSE kids[i].pend \o PendOf(kids, i + 1)
+
+(* index of the first failing action in a sequence of [tag, fails], 0 if none *)
+FirstFail(acts) == LET F == {i \in DOMAIN acts : acts[i].fails}
+                   IN IF F = {} THEN 0 ELSE CHOOSE i \in F : \A j \in F : i <= j
+
+IsInline(p) == \E i \in DOMAIN Cases[c].inl : Cases[c].inl[i] = Lhs(GC, p)
 
 Reduce ==
   /\ res = Running /\ la # NoLa
@@ -127,16 +145,25 @@ Reduce ==
      IN IF p = Cases[c].sp
         THEN /\ res' = [kind |-> "ok", value |-> kids[1].v]
              /\ UNCHANGED <<stk, evs>>
-        ELSE /\ evs' = IF RunsCode(PC[p]) THEN Append(evs, <<PC[p].tag, pulled>>) ELSE evs
-             /\ IF Fails(PC[p], kids, EmptyPos)
-                THEN /\ res' = [kind |-> "user", tag |-> PC[p].tag]
-                     /\ UNCHANGED stk
-                ELSE LET base == SubSeq(stk, 1, Len(stk) - m)
-                         from == base[Len(base)].I
-                     IN /\ stk' = Append(base, [I |-> Goto(GC, PreOf[c], from, Lhs(GC, p)),
-                                                v |-> ProdValue(PC[p], kids, EmptyPos),
-                                                lo |-> SpanLo(kids, EmptyPos), hi |-> SpanHi(kids, EmptyPos)])
-                        /\ UNCHANGED res
+        ELSE LET acts == PendOf(kids, 1) \o
+                          (IF RunsCode(PC[p])
+                           THEN << [tag |-> PC[p].tag, fails |-> Fails(PC[p], kids, EmptyPos)] >> ELSE <<>>)
+                 base == SubSeq(stk, 1, Len(stk) - m)
+                 from == base[Len(base)].I
+                 entry(pend) == [I |-> Goto(GC, PreOf[c], from, Lhs(GC, p)),
+                                 v |-> ProdValue(PC[p], kids, EmptyPos),
+                                 lo |-> SpanLo(kids, EmptyPos), hi |-> SpanHi(kids, EmptyPos), pend |-> pend]
+             IN IF IsInline(p)
+                THEN /\ stk' = Append(base, entry(acts))
+                     /\ UNCHANGED <<evs, res>>
+                ELSE LET ff == FirstFail(acts)
+                         ran == IF ff = 0 THEN acts ELSE SubSeq(acts, 1, ff)
+                     IN /\ evs' = evs \o [i \in DOMAIN ran |-> <<ran[i].tag, pulled>>]
+                        /\ IF ff # 0
+                           THEN /\ res' = [kind |-> "user", tag |-> acts[ff].tag]
+                                /\ UNCHANGED stk
+                           ELSE /\ stk' = Append(base, entry(<<>>))
+                                /\ UNCHANGED res
   /\ UNCHANGED <<c, la, pulled, inp>>
 
 (* no action: the first token that cannot continue the input *)
